@@ -74,6 +74,47 @@ func (v *Verifier) verifyFunction(fn *ssa.Function, c *FuncContract) {
 				fmt.Sprintf("invariant refers to loop %d, function has %d loops", inv.Loop, len(x.loops)))
 		}
 	}
+	// `loop N exhaustive`: every iteration the loop's own condition allows is taken (no early exit from the body)
+	for _, ex := range c.Exhaustive {
+		var li *loopInfo
+		for _, l := range x.loops {
+			if l.ordinal == ex.Loop {
+				li = l
+			}
+		}
+		if li == nil {
+			x.emitFixed("contract-detached.loop"+fmt.Sprint(ex.Loop)+"."+ex.Label, "detached", ex, "false",
+				fmt.Sprintf("exhaustive clause refers to loop %d, function has %d loops", ex.Loop, len(x.loops)))
+			continue
+		}
+		var problems []string
+		for b := range li.body {
+			for _, s := range b.Succs {
+				if li.body[s] || b == li.head {
+					continue
+				}
+				// leaving the body for a block that panics is a stop of the program, not a silent early exit
+				if n := len(s.Instrs); n > 0 {
+					if _, isPanic := s.Instrs[n-1].(*ssa.Panic); isPanic {
+						continue
+					}
+				}
+				problems = append(problems, fmt.Sprintf("block %d leaves the loop for block %d (break, return or goto out of the body)", b.Index, s.Index))
+			}
+		}
+		props := ex.Props
+		if len(props) == 0 {
+			props = c.Props
+		}
+		o := &Obligation{Name: x.fnName() + ".exhaustive.loop" + fmt.Sprint(ex.Loop) + "." + ex.Label, Func: x.fnName(), Kind: "structural", Label: ex.Label, Props: props,
+			Clause: "loop " + fmt.Sprint(ex.Loop) + " is left only through its own condition (structural scan)", Goal: "true", Preset: true, Result: "unsat", Solver: "structural-scan"}
+		if len(problems) > 0 {
+			sort.Strings(problems)
+			o.Result = "structural-fail"
+			o.Output = strings.Join(problems, "; ")
+		}
+		v.obls = append(v.obls, o)
+	}
 	st := newState()
 	x.initParams(st)
 	func() {
